@@ -405,6 +405,38 @@ def branching_case(p, res):
                         res.viol("branching", cfg, "first-match", f"truth {truth}: returned {out}, expected ({('out', want, 9)}, '{name}')")
                     elif calls[0][2] != ("a",) or calls[0][3] != (("k", 1),):
                         res.viol("branching", cfg, "args-forwarded", f"branch model called with {calls[0][2:]}")
+    # the binary constructor BranchingModel(condition, true_branch, false_branch): every subset of the two branch models given, condition true /
+    # false; a branch that is not given is the identity
+    if n == 1:
+        for give_t, give_f, truth1 in product([False, True], [False, True], [False, True]):
+            for form in ("bool", "tensor"):
+                cfg = f"binary,true={int(give_t)},false={int(give_f)},cond={int(truth1)},{form}"
+                cond = (lambda x, t=truth1: t) if form == "bool" else (lambda x, t=truth1: torch.tensor(t))
+                kw = {"condition": cond}
+                if give_t:
+                    kw["true_branch"] = M("T")
+                if give_f:
+                    kw["false_branch"] = M("F")
+                del calls[:]
+                res.ev(1, nontrivial=1, transitions=1)
+                try:
+                    out = BranchingModel(**kw)(9, True, "a", k=1)
+                except Exception as e:  # noqa: BLE001
+                    res.viol("branching", cfg, "raises", f"{type(e).__name__}: {e}")
+                    continue
+                given = give_t if truth1 else give_f
+                tag = "T" if truth1 else "F"
+                ran = [c[0] for c in calls]
+                if given:
+                    if ran != [tag] or out[0] != ("out", tag, 9):
+                        res.viol("branching", cfg, "first-match", f"condition {truth1}: models run {ran}, returned {out}; the {'true' if truth1 else 'false'} branch model should run exactly once")
+                    elif calls[0][2] != ("a",) or calls[0][3] != (("k", 1),):
+                        res.viol("branching", cfg, "args-forwarded", f"branch model called with {calls[0][2:]}")
+                else:
+                    if ran or out[0] != 9:
+                        res.viol("branching", cfg, "first-match", f"condition {truth1} and no model given for that side: models run {ran}, returned {out}; expected the input unchanged")
+                if out[1] != ("true_branch" if truth1 else "default"):
+                    res.viol("branching", cfg, "first-match", f"condition {truth1}: branch name reported as {out[1]!r}")
     res.sample({"branches": n, "assignments": 2 ** n})
 
 
